@@ -1,0 +1,21 @@
+//go:build verif
+
+// Contracts for the deductive verification in /verif (comment-only; compiled code is unaffected).
+package signer
+
+// A response carries a signature iff its state is SUCCEEDED (C06).
+
+//@ func (*Handler).SignBeaconAttestation
+//@ requires h != nil
+//@ modifies tokroot, db, checkedset
+//@ ensures [failclosed] result1 == nil && result0 != nil && ((result0.State == pb.ResponseState_SUCCEEDED) <==> (result0.Signature != nil))
+
+//@ func (*Handler).SignBeaconProposal
+//@ requires h != nil
+//@ modifies tokroot, db, checkedset
+//@ ensures [failclosed] result1 == nil && result0 != nil && ((result0.State == pb.ResponseState_SUCCEEDED) <==> (result0.Signature != nil))
+
+//@ func (*Handler).Sign
+//@ requires h != nil
+//@ modifies tokroot, db, checkedset
+//@ ensures [failclosed] result1 == nil && result0 != nil && ((result0.State == pb.ResponseState_SUCCEEDED) <==> (result0.Signature != nil))
